@@ -242,6 +242,27 @@ class SymRope:
     __repr__ = __str__
 
 
+def _unique_value(v):
+    """the single value a symbolic int can take under the current path condition, if there is only one"""
+    from .explorer import _STACK
+    import z3
+    if not _STACK:
+        return None
+    ex = _STACK[-1]
+    try:
+        r, m = ex.model_for(*[c for c in ex.pc])
+        if m is None:
+            return None
+        c = m.eval(v.t, True)
+        if not z3.is_bv_value(c):
+            return None
+        if ex._check(v.t != c):
+            return None
+        return c.as_signed_long()
+    except Unsupported:
+        return None
+
+
 def _sx_fstr(parts):
     out = []
     symbolic = False
@@ -253,6 +274,10 @@ def _sx_fstr(parts):
         v, conv, spec = p
         if isinstance(v, P.SymInt) and not spec:
             v2 = v.simp()
+            if not isinstance(v2, int):
+                u = _unique_value(v2)
+                if u is not None:
+                    v2 = u
             if isinstance(v2, int):
                 out.append(str(v2))
             else:
